@@ -129,6 +129,13 @@ def compare(ws, sch, rec, item, emit):
             hmap[nm.upper() if nm.upper() != nm else nm.lower() + "X"] = recorder(nm)
             if nm.upper() == nm:
                 continue
+        elif kind == "dup2":
+            a, b = nm.upper(), nm.capitalize()
+            if len({a, b, nm}) < 3:
+                continue
+            del hmap[nm.upper() if nm.upper() in hmap else nm]
+            hmap[a] = recorder(nm)
+            hmap[b] = recorder(nm)
         try:
             handler(hmap)
             outcome = "ok"
@@ -185,7 +192,7 @@ def run(chk):
     chk.rule = ("3 base schemas (nesting depth 3, multisections, abstract slots, wrapping section datatypes) x %d random "
                 "placements of handler attributes on subsets of all items and the schema x %d random texts (conforming "
                 "generator; rejected ones count as trivial) x handler maps {complete (with upper-cased names), each name "
-                "missing, each name mapped to None, each name duplicated in another case}; non-trivial = accepted text with "
+                "missing, each name mapped to None, each name duplicated in another case, each name supplied only in two non-normalised spellings}; non-trivial = accepted text with "
                 "at least one handler entry" % (nvar, ntext))
     sc = scenario.Scenarios(docs)
     for sid in range(len(docs)):
